@@ -9,6 +9,12 @@ type nat =
 | O
 | S of nat
 
+(** val option_map : ('a1 -> 'a2) -> 'a1 option -> 'a2 option **)
+
+let option_map f = function
+| Some a -> Some (f a)
+| None -> None
+
 type ('a, 'b) sum =
 | Inl of 'a
 | Inr of 'b
@@ -22,6 +28,12 @@ let fst = function
 
 let snd = function
 | (_, y) -> y
+
+(** val length : 'a1 list -> nat **)
+
+let rec length = function
+| [] -> O
+| _ :: l' -> S (length l')
 
 (** val app : 'a1 list -> 'a1 list -> 'a1 list **)
 
@@ -130,6 +142,20 @@ module type UsualOrderedTypeFull =
   val compare : t -> t -> comparison
 
   val eq_dec : t -> t -> bool
+ end
+
+module Nat =
+ struct
+  (** val compare : nat -> nat -> comparison **)
+
+  let rec compare n0 m =
+    match n0 with
+    | O -> (match m with
+            | O -> Eq
+            | S _ -> Lt)
+    | S n' -> (match m with
+               | O -> Gt
+               | S m' -> compare n' m')
  end
 
 module Pos =
@@ -535,6 +561,12 @@ let n_of_ascii = function
   n_of_digits
     (a0 :: (a1 :: (a2 :: (a3 :: (a4 :: (a5 :: (a6 :: (a7 :: []))))))))
 
+(** val hd_error : 'a1 list -> 'a1 option **)
+
+let hd_error = function
+| [] -> None
+| x :: _ -> Some x
+
 (** val nth : nat -> 'a1 list -> 'a1 -> 'a1 **)
 
 let rec nth n0 l default =
@@ -567,11 +599,24 @@ let rec map f = function
 | [] -> []
 | a :: t0 -> (f a) :: (map f t0)
 
+(** val fold_left : ('a1 -> 'a2 -> 'a1) -> 'a2 list -> 'a1 -> 'a1 **)
+
+let rec fold_left f l a0 =
+  match l with
+  | [] -> a0
+  | b :: t0 -> fold_left f t0 (f a0 b)
+
 (** val forallb : ('a1 -> bool) -> 'a1 list -> bool **)
 
 let rec forallb f = function
 | [] -> true
 | a :: l0 -> (&&) (f a) (forallb f l0)
+
+(** val filter : ('a1 -> bool) -> 'a1 list -> 'a1 list **)
+
+let rec filter f = function
+| [] -> []
+| x :: l0 -> if f x then x :: (filter f l0) else filter f l0
 
 module Z =
  struct
@@ -590,6 +635,20 @@ module Z =
       (match y with
        | Zneg y' -> compOpp (Coq_Pos.compare x' y')
        | _ -> Lt)
+
+  (** val eqb : z -> z -> bool **)
+
+  let eqb x y =
+    match x with
+    | Z0 -> (match y with
+             | Z0 -> true
+             | _ -> false)
+    | Zpos p -> (match y with
+                 | Zpos q -> Coq_Pos.eqb p q
+                 | _ -> false)
+    | Zneg p -> (match y with
+                 | Zneg q -> Coq_Pos.eqb p q
+                 | _ -> false)
 
   (** val eq_dec : z -> z -> bool **)
 
@@ -1846,3 +1905,128 @@ let t_eqb o t0 u =
   | Neg a -> (match u with
               | Pos _ -> false
               | Neg b -> o.vs_eqb a b)
+
+type pkg = n
+
+type 'vS depmap = (pkg * 'vS) list
+
+type 'vS provider = (pkg * (z * 'vS depmap) list) list
+
+(** val empty_provider : 'a1 provider **)
+
+let empty_provider =
+  []
+
+(** val dm_insert : pkg -> 'a1 -> 'a1 depmap -> 'a1 depmap **)
+
+let rec dm_insert q s = function
+| [] -> (q, s) :: []
+| p :: r ->
+  let (q', s') = p in
+  if N.eqb q q' then (q, s) :: r else (q', s') :: (dm_insert q s r)
+
+(** val collect : (pkg * 'a1) list -> 'a1 depmap **)
+
+let collect l =
+  fold_left (fun m qs -> dm_insert (fst qs) (snd qs) m) l []
+
+(** val inner_set :
+    z -> 'a1 depmap -> (z * 'a1 depmap) list -> (z * 'a1 depmap) list **)
+
+let rec inner_set v d l = match l with
+| [] -> (v, d) :: []
+| p :: r ->
+  let (w, d') = p in
+  (match Z.compare v w with
+   | Eq -> (v, d) :: r
+   | Lt -> (v, d) :: l
+   | Gt -> (w, d') :: (inner_set v d r))
+
+(** val inner_get : z -> (z * 'a1 depmap) list -> 'a1 depmap option **)
+
+let rec inner_get v = function
+| [] -> None
+| p :: r -> let (w, d) = p in if Z.eqb v w then Some d else inner_get v r
+
+(** val outer_get : pkg -> 'a1 provider -> (z * 'a1 depmap) list option **)
+
+let rec outer_get p = function
+| [] -> None
+| p0 :: r -> let (p', l) = p0 in if N.eqb p p' then Some l else outer_get p r
+
+(** val outer_set :
+    pkg -> (z * 'a1 depmap) list -> 'a1 provider -> 'a1 provider **)
+
+let rec outer_set p l = function
+| [] -> (p, l) :: []
+| p0 :: r ->
+  let (p', l') = p0 in
+  if N.eqb p p' then (p, l) :: r else (p', l') :: (outer_set p l r)
+
+(** val add_dependencies :
+    'a1 provider -> pkg -> z -> (pkg * 'a1) list -> 'a1 provider **)
+
+let add_dependencies prov p v deps =
+  let inner = match outer_get p prov with
+              | Some l -> l
+              | None -> [] in
+  outer_set p (inner_set v (collect deps) inner) prov
+
+(** val packages : 'a1 provider -> pkg list **)
+
+let packages prov =
+  map fst prov
+
+(** val versions : 'a1 provider -> pkg -> z list option **)
+
+let versions prov p =
+  option_map (map fst) (outer_get p prov)
+
+(** val dependencies : 'a1 provider -> pkg -> z -> 'a1 depmap option **)
+
+let dependencies prov p v =
+  match outer_get p prov with
+  | Some l -> inner_get v l
+  | None -> None
+
+(** val choose_version :
+    ('a1 -> z -> bool) -> 'a1 provider -> pkg -> 'a1 -> z option **)
+
+let choose_version contains0 prov p s =
+  match versions prov p with
+  | Some vs -> hd_error (filter (contains0 s) (rev0 vs))
+  | None -> None
+
+(** val prioritize_count :
+    ('a1 -> z -> bool) -> 'a1 provider -> pkg -> 'a1 -> nat **)
+
+let prioritize_count contains0 prov p s =
+  match versions prov p with
+  | Some vs -> length (filter (contains0 s) vs)
+  | None -> O
+
+(** val priority_compare : nat -> nat -> comparison **)
+
+let priority_compare a b =
+  Nat.compare b a
+
+type 'vS dependencies_result =
+| Unavailable
+| Available of 'vS depmap
+
+(** val get_dependencies :
+    'a1 provider -> pkg -> z -> 'a1 dependencies_result **)
+
+let get_dependencies prov p v =
+  match dependencies prov p v with
+  | Some d -> Available d
+  | None -> Unavailable
+
+type 'vS op = (pkg * z) * (pkg * 'vS) list
+
+(** val run : 'a1 op list -> 'a1 provider **)
+
+let run ops =
+  fold_left (fun prov o ->
+    add_dependencies prov (fst (fst o)) (snd (fst o)) (snd o)) ops
+    empty_provider
